@@ -170,9 +170,6 @@ class Run:
 			if isinstance(n, (ast.For, ast.comprehension)):
 				names = {t.id for t in ast.walk(n.target) if isinstance(t, ast.Name)}
 				self.binders.append((n, names, n.iter))
-		# lambdas that are the value of an annotated assignment (source spans, read before the tree is instrumented)
-		self.anno_lambdas = [(n.value.lineno, n.value.col_offset, n.value.end_lineno, n.value.end_col_offset)
-			for n in ast.walk(tree) if isinstance(n, ast.AnnAssign) and isinstance(n.value, ast.Lambda)]
 		self.instr = _Instr()
 		tree = ast.fix_missing_locations(self.instr.visit(tree))
 		self.code = compile(tree, '<c03-program>', 'exec')
@@ -330,8 +327,7 @@ def op_name(n: ast.AST) -> str:
 
 # failing input classes listed as known findings (the other names computed below are repaired: listed as fixed)
 UNDERSTOOD = {'dict-get-missing-key', 'list-literal-class-dedup', 'union-of-subclasses-attribute', 'ternary-union-of-containers',
-	'tuple-slice-nonliteral-bounds', 'abs-of-bool', 'min-max-mixed-numeric', 'list-of-dict-items', 'boolop-nonbool-operands', 'explicit-init-call',
-	'annotated-lambda-parameter'}
+	'tuple-slice-nonliteral-bounds', 'abs-of-bool', 'min-max-mixed-numeric', 'list-of-dict-items', 'boolop-nonbool-operands', 'explicit-init-call'}
 
 CONTAINER_HEADS = ('list', 'dict', 'tuple')
 
@@ -355,19 +351,13 @@ GENERIC_OF_UNION = re.compile(r'(list|dict|tuple|Iterator|ItemsView|Pair)<[^<>]*
 
 
 def canonical_key(raw: str, site: dict[str, Any], real: str, runtime: list[str], kids: list[tuple[dict[str, Any], str]],
-		descendants: list[tuple[dict[str, Any], str]], message: str, binder_reals: list[str], class_names: set[str] = frozenset(),  # type: ignore[assignment]
-		anno_lambdas: list[tuple[int, int, int, int]] | None = None) -> str:
+		descendants: list[tuple[dict[str, Any], str]], message: str, binder_reals: list[str], class_names: set[str] = frozenset()) -> str:  # type: ignore[assignment]
 	"""A stable name for a failing input class that is already understood (the predicate is on the failing site itself:
 	node kind, operator, inferred operand types); otherwise the structural key."""
 	n = site['node']
 	kid_real = [r for _, r in kids]
 	if raw.startswith('raises:Errors.Never') and 'Already set attibutes' in message:
 		return 'list-literal-shared-union'
-	if raw.startswith('raises:Errors.Fatal') and 'RecursionError' in message and anno_lambdas:
-		# inside `f: Callable[…] = lambda a: … a …`: typing the parameter types the whole assignment, which types the body, which …
-		sp = site['span']
-		if any((sp[0], sp[1]) >= (l[0], l[1]) and (sp[2], sp[3]) <= (l[2], l[3]) for l in anno_lambdas):
-			return 'annotated-lambda-parameter'
 	if site['kind'] == 'expr':
 		if isinstance(n, ast.UnaryOp) and isinstance(n.op, (ast.USub, ast.UAdd, ast.Invert)) and kid_real == ['bool']:
 			return 'factor-on-bool'
@@ -555,7 +545,7 @@ def compare(run: Run, refl: Any, module: Any) -> tuple[list[dict[str, Any]], dic
 						if rj is not None:
 							binder_reals.append(rj)
 						binder_reals.extend(r for _, r in ((run.instr.sites[k], real_at(k)) for k in descendants_of(j)) if r is not None)
-		key = canonical_key(raw, run.instr.sites[root] if site['kind'] == 'decl' else site, b['real'], b['runtime'], kids, desc, b.get('message', ''), binder_reals, run.class_names, run.anno_lambdas)
+		key = canonical_key(raw, run.instr.sites[root] if site['kind'] == 'decl' else site, b['real'], b['runtime'], kids, desc, b.get('message', ''), binder_reals, run.class_names)
 		if b['why'] == 'raises' and key == raw:
 			# inference fails here because a sub-expression was already mis-typed: the finding belongs to that cause
 			causes = [key_of[j] for j in descendants_of(root) if j in key_of]
